@@ -74,10 +74,22 @@ object_ = _mk_scalar_type("object_", "O")
 double = float64
 single = float32
 
-_SCALAR_SIZES = {
+class _Sizes(dict):
+    """Item sizes of leaf codes; fixed-width byte strings ('S<n>') have their own width."""
+
+    def __missing__(self, code):
+        if isinstance(code, str) and re.fullmatch(r"S\d+", code):
+            return int(code[1:])
+        raise KeyError(code)
+
+    def __contains__(self, code):
+        return dict.__contains__(self, code) or bool(isinstance(code, str) and re.fullmatch(r"S[1-9]\d*", code))
+
+
+_SCALAR_SIZES = _Sizes({
     "f4": 4, "f8": 8, "i1": 1, "i2": 2, "i4": 4, "i8": 8,
     "u1": 1, "u2": 2, "u4": 4, "u8": 8, "b1": 1, "O": 8,
-}
+})
 
 
 class dtype:
@@ -136,7 +148,7 @@ class dtype:
         return self
 
     def _parse(self, s: str) -> None:
-        m = re.fullmatch(r"\s*([<>=|]?)\s*(\((?:\d+,?\s*)+\)|\d+)?\s*([<>=|]?)\s*([fiubO?])(\d*)\s*", s)
+        m = re.fullmatch(r"\s*([<>=|]?)\s*(\((?:\d+,?\s*)+\)|\d+)?\s*([<>=|]?)\s*([fiubO?Sa])(\d*)\s*", s)
         if not m:
             names = {"float32": "f4", "float64": "f8", "int16": "i2", "int32": "i4", "int64": "i8",
                      "uint16": "u2", "uint32": "u4", "uint8": "u1", "int8": "i1", "uint64": "u8",
@@ -150,6 +162,8 @@ class dtype:
             raise UnsupportedInShim("big-endian dtype")
         if kind == "O":
             code = "O"
+        elif kind in "Sa":
+            code = "S" + (size or "0")  # fixed-width byte string: the leaf is a tuple of byte cells
         elif kind == "?":
             code = "b1"
         else:
@@ -206,7 +220,7 @@ class dtype:
     def kind(self) -> str:
         if self.fields_list is not None or self._base is not None:
             return "V"
-        return {"f": "f", "i": "i", "u": "u", "b": "b", "O": "O"}[self.code[0]]
+        return {"f": "f", "i": "i", "u": "u", "b": "b", "O": "O", "S": "S"}[self.code[0]]
 
     @property
     def fields(self):
@@ -220,7 +234,7 @@ class dtype:
 
     @property
     def str(self) -> str:
-        return "<" + (self.code or "V")
+        return ("|" if (self.code or "V")[0] == "S" else "<") + (self.code or "V")
 
     @property
     def type(self):
@@ -328,6 +342,14 @@ def to_leaf(v: Any, code: str, from_python: bool = True):
         return v
     if isinstance(v, Scalar0):
         v = v.value
+    if code[0] == "S":
+        n = int(code[1:])
+        if isinstance(v, tuple) and len(v) == n:
+            return v
+        if isinstance(v, (bytes, SBytes)):
+            items = list(items_of(v))[:n]
+            return tuple(items + [0] * (n - len(items)))
+        raise UnsupportedInShim(f"cast of {type(v).__name__} to a byte-string dtype")
     if code[0] == "f":
         w = _fw(code)
         if isinstance(v, FloatLeaf):
@@ -429,6 +451,9 @@ def leaf_out(x, code: str):
         if isinstance(x, int):
             return E.bits_to_float(x, w)  # a real numpy scalar
         return SFloat(w, x)
+    if code[0] == "S":
+        # numpy strips *trailing* NULs of an 'S' item, nothing else
+        return mkbytes(list(x)).rstrip(b"\x00")
     return x
 
 
@@ -451,6 +476,8 @@ def leaf_bytes(x, code: str) -> list:
     n = int(code[1:]) if code != "O" else 8
     if code == "O":
         raise UnsupportedInShim("tobytes of an object array")
+    if code[0] == "S":
+        return list(x)
     if code[0] == "f":
         if isinstance(x, int):
             return list(x.to_bytes(n, "little"))
@@ -473,6 +500,8 @@ def leaf_from_bytes(items: list, code: str):
     n = len(items)
     if code == "O":
         raise UnsupportedInShim("frombuffer with object dtype")
+    if code[0] == "S":
+        return tuple(items)
     if _b.all(isinstance(x, int) for x in items):
         if code[0] == "f":
             return int.from_bytes(bytes(items), "little")
@@ -510,6 +539,9 @@ def leaf_eq(a, b, code: str):
         fa = SFloat(w, z3.BitVecVal(a, w) if isinstance(a, int) else a)
         fb = SFloat(w, z3.BitVecVal(b, w) if isinstance(b, int) else b)
         return z3.simplify(fa.fp_eq_e(fb))
+    if code[0] == "S":
+        r = leaf_out(a, code) == leaf_out(b, code)
+        return r.e if isinstance(r, SBool) else bool(r)
     if code == "O":
         r = a == b
         if isinstance(r, ndarray):
@@ -562,7 +594,8 @@ class Record:
         if d._base is not None:
             idx = list(range(self._base + leaf, self._base + leaf + d.nleaves))
             return ndarray._mk(d.shape, d._base, self._buf, idx, self._w)
-        return leaf_out(self._buf[self._base + leaf], d.code)
+        x = leaf_out(self._buf[self._base + leaf], d.code)
+        return E.as_np_scalar(x, d.code) if d.code[0] in "iu" else x
 
     def __iter__(self):
         for f in self.dtype.fields_list:
@@ -649,10 +682,18 @@ class ndarray:
     def _elem_out(self, pos: int):
         if self._structured:
             return Record(self._buf, pos, self.dtype, self._writeable)
-        return leaf_out(self._buf[pos], self.dtype.code)
+        code = self.dtype.code
+        if code[0] in "iu":
+            return E.as_np_scalar(leaf_out(self._buf[pos], code), code)  # a numpy integer scalar, not an int
+        return leaf_out(self._buf[pos], code)
 
-    def _select(self, key):
-        """-> (new_shape, new_idx, scalar?)"""
+    def _py_out(self, pos: int):
+        """The element as a Python scalar (tolist / item / int())."""
+        return E.strip_np(self._elem_out(pos))
+
+    def _select(self, key, info=None):
+        """-> (new_shape, new_idx, scalar?); info["fancy"] is set when an index array was used
+        (numpy then returns a copy, not a view)"""
         if not isinstance(key, tuple):
             key = (key,)
         # expand Ellipsis / pad with full slices
@@ -683,7 +724,29 @@ class ndarray:
                 per_dim.append(list(rng))
                 new_shape.append(len(rng))
             elif isinstance(k, (ndarray, list)):
-                raise UnsupportedInShim("fancy indexing")
+                # one 1-D index array: a boolean mask (each symbolic element is decided, i.e.
+                # forks) or a list of integer positions
+                if info is None or info.get("fancy"):
+                    raise UnsupportedInShim("fancy indexing (several index arrays / assignment target)")
+                ka = k if isinstance(k, ndarray) else array(k)
+                if ka.ndim != 1 or ka._structured:
+                    raise UnsupportedInShim("fancy indexing with an index array of rank != 1")
+                if ka.dtype.code == "b1":
+                    if ka.shape[0] != n:
+                        raise IndexError(f"boolean index did not match indexed array along dimension {dim}; dimension is {n} but corresponding boolean dimension is {ka.shape[0]}")
+                    sel = [j for j in range(n) if bool(ka._buf[ka._idx[j]])]
+                elif ka.dtype.code[0] in "iu":
+                    sel = []
+                    for j in range(ka.shape[0]):
+                        i = _as_index(ka._buf[ka._idx[j]])
+                        if i < -n or i >= n:
+                            raise IndexError(f"index {i} is out of bounds for axis {dim} with size {n}")
+                        sel.append(i + n if i < 0 else i)
+                else:
+                    raise IndexError("arrays used as indices must be of integer (or boolean) type")
+                info["fancy"] = True
+                per_dim.append(sel)
+                new_shape.append(len(sel))
             else:
                 try:
                     i = _as_index(k)
@@ -714,9 +777,16 @@ class ndarray:
     def __getitem__(self, key):
         if isinstance(key, str):
             return self._field_view(key)
-        shape, idx, scalar = self._select(key)
+        info = {}
+        shape, idx, scalar = self._select(key, info)
         if scalar:
             return self._elem_out(idx[0])
+        if info.get("fancy"):
+            nl = self.dtype.nleaves if self._structured else 1
+            if self._structured:
+                buf = [self._buf[p + j] for p in idx for j in range(nl)]
+                return ndarray._mk(shape, self.dtype, buf, [i * nl for i in range(len(idx))], True)
+            return ndarray._mk(shape, self.dtype, [self._buf[p] for p in idx], list(range(len(idx))), True)
         return ndarray._mk(shape, self.dtype, self._buf, idx, self._writeable)
 
     def _field_view(self, name: str) -> "ndarray":
@@ -736,7 +806,7 @@ class ndarray:
         if isinstance(key, str):
             target = self._field_view(key)
         else:
-            shape, idx, scalar = self._select(key)
+            shape, idx, scalar = self._select(key, {})
             target = ndarray._mk(shape, self.dtype, self._buf, idx, True)
         target._assign(value)
 
@@ -896,13 +966,13 @@ class ndarray:
 
     def tolist(self):
         if not self.shape:
-            return self._elem_out(self._idx[0])
-        return [x.tolist() if isinstance(x, ndarray) else x for x in self]
+            return self._py_out(self._idx[0])
+        return [x.tolist() if isinstance(x, ndarray) else E.strip_np(x) for x in self]
 
     def item(self, *a):
         if self.size != 1:
             raise ValueError("can only convert an array of size 1 to a Python scalar")
-        return self._elem_out(self._idx[0])
+        return self._py_out(self._idx[0])
 
     def view(self, *a, **k):
         raise UnsupportedInShim("ndarray.view")
@@ -917,7 +987,7 @@ class ndarray:
 
     def __int__(self):
         if self.size == 1:
-            return int(self._elem_out(self._idx[0]))
+            return int(self._py_out(self._idx[0]))
         raise TypeError("only length-1 arrays can be converted to Python scalars")
 
     def __float__(self):
